@@ -389,6 +389,9 @@ def run_unit_batch(ctx, cases, tag):
 
 # =============================================================================================== worlds
 
+N_DIRECTED = 6
+
+
 def _mini_pkg(deps=(), src=True, **kw):
     d = {"deps": list(deps), "src": {"dir": ".", "files": {"a.txt": "a1"}} if src else None, "co": None, "bid": 1, "pid": 1,
          "bvars": [], "pvars": [], "penv": {}, "tool": None, "useTools": [], "weakTools": [], "fingerprint": False,
@@ -406,6 +409,7 @@ def directed_world(k, r):
     def run(ws, st, download="no", upload=False, h="h1", check=False, expect_all=False, fresh=False):
         steps.append({"do": "run", "ws": ws, "state": st, "download": download, "upload": upload, "host": h,
                       "develop": dev, "check": check, "expect_all": expect_all, "fresh": fresh})
+    k = {0: 0, 1: 1, 2: 2, 3: 3, 4: 4, 5: 5}.get(k, 2)
     if k == 0:
         # same recipes and sources, other host fingerprint: the artifact of host h1 must not be taken on h2
         proj = {"pkgs": {"p0": _mini_pkg(["p1"], fingerprint=True), "p1": _mini_pkg()}, "env": {}, "serial": 1}
@@ -428,7 +432,7 @@ def directed_world(k, r):
         run("B", 1, download=r.choice(["yes", "forced-fallback", "packages"]), check=True)
         kind = "strong-tool"
     elif k == 3:
-        # same sources imported into another directory: the live-build-id of the sources must not map to the
+        # (import directory) same sources imported into another directory: the live-build-id of the sources must not map to the
         # checkout result of the other layout
         proj = {"pkgs": {"p0": _mini_pkg(["p1"]), "p1": _mini_pkg()}, "env": {}, "serial": 1}
         nxt = copy.deepcopy(proj)
@@ -439,7 +443,34 @@ def directed_world(k, r):
         run("R", 1)
         run("B", 1, download=r.choice(["yes", "forced-fallback"]), check=True)
         kind = "import-dir"
-    else:
+    elif k == 4:
+        # the host fingerprint changes inside the history of ONE workspace (with downloads before and after)
+        proj = {"pkgs": {"p0": _mini_pkg(["p1"]), "p1": _mini_pkg(fingerprint=True)}, "env": {}, "serial": 1}
+        states = [proj]
+        run("A", 0, upload=True, h="h1")
+        run("R", 0, h="h2")
+        run("B", 0, download=r.choice(["yes", "deps", "packages"]), h="h1", check=True)
+        run("B", 0, download=r.choice(["yes", "deps", "packages"]), h="h2", check=True)
+        run("B", 0, download=r.choice(["yes", "deps"]), h="h1", check=True)
+        kind = "fingerprint-history"
+    elif k == 5:
+        # diamond root -> [mid, lib], mid -> [lib]; the prediction for lib is wrong, `packages=^mid$`: mid is fetched
+        # for the predicted sources before lib is checked out (lib and root are not eligible, so the wrong
+        # prediction is always noticed); after the restart nothing of that artifact may survive
+        proj = {"pkgs": {"p0": _mini_pkg(["p1", "p2"], src=False), "p1": _mini_pkg(["p2"], src=False), "p2": _mini_pkg()},
+                "env": {}, "serial": 1}
+        nxt = copy.deepcopy(proj)
+        nxt["pkgs"]["p2"]["src"]["files"]["a.txt"] = "m2"
+        nxt["serial"] = 2
+        states = [proj, nxt]
+        run("A", 0, upload=True)
+        run("A2", 1, upload=True, fresh=True)
+        steps.append({"do": "buildid", "how": "stale", "from": 0, "to": 1, "keep_old": True})
+        run("B", 1, download="packages", check=True)
+        run("B", 1, download="packages", check=True)
+        kind = "mispredict-diamond"
+        return {"kind": kind, "states": states, "steps": steps, "tseed": r.randrange(1 << 30), "pkgre": "^p1$"}
+    elif k == 2:
         # a stale live-build-id file: the wrong prediction has to be recovered completely, nothing may be uploaded
         # under the ids derived from it
         proj = {"pkgs": {"p0": _mini_pkg(["p1"]), "p1": _mini_pkg()}, "env": {}, "serial": 1}
@@ -458,7 +489,7 @@ def directed_world(k, r):
 
 def gen_world(r, tier, idx=99):
     """a script of real invocations; everything a replay needs is in the returned dict"""
-    if idx < 4:
+    if idx < N_DIRECTED:
         return directed_world(idx, r)
     P = _P()
     proj = P.gen_project(r, r.choice([2, 3, 3, 4]) if tier == "thorough" else r.choice([2, 3]))
@@ -488,7 +519,8 @@ def gen_world(r, tier, idx=99):
         bh = host if (same or r.random() < 0.5) else [x for x in HOSTS if x != host][0]
         run("B", 0 if same else 1, download=mode, h=bh, check=True, expect_all=(same and bh == host))
         # the downloader moves on: a source-only edit changes Build-Ids but no Variant-Id
-        run("B", 1 if same else 0, download=r.choice(MODES), h=bh, check=True)
+        bh2 = bh if r.random() < 0.5 else [x for x in HOSTS if x != bh][0]
+        run("B", 1 if same else 0, download=r.choice(MODES), h=bh2, check=True)
     elif kind == "history":
         run("A", 0, upload=True)
         run("A", 1, upload=True, download=r.choice(["no", "yes"]))
@@ -628,8 +660,9 @@ def run_world(arg):
                                 fd.write(bytes.fromhex(o[1]))
                             count("tamper", "buildid-stale")
                     # what could be fetched under the stale ids must not be there (else the wrong prediction is
-                    # undetectable by design): remove the artifacts only the old state has
-                    for name, b in old["bids"].items():
+                    # undetectable by design): remove the artifacts only the old state has - unless the script of
+                    # the world makes sure that the mispredicted package is checked out anyway
+                    for name, b in ([] if step.get("keep_old") else old["bids"].items()):
                         if new["bids"].get(name) != b:
                             f = P.archive_path(W.archive, b)
                             if os.path.exists(f):
@@ -850,7 +883,7 @@ def unit_phase(ctx):
     got = []
     t0 = time.time()
     for lo in range(0, n, 250):
-        if tl(ctx) < 40:
+        if lo > 0 and tl(ctx) < 40:      # the first batch always runs
             ctx.skip("unit oracle stopped after %d of %d cases (time)" % (lo, n))
             break
         out = run_unit_batch(ctx, cases[lo:lo + 250], "o%d" % lo)
@@ -870,29 +903,40 @@ def unit_phase(ctx):
 def worlds_phase(ctx):
     # ---- (W) worlds of real builds
     t0 = time.time()
-    if tl(ctx) < 45:
-        ctx.skip("worlds of real builds: no time left (%.0f s)" % tl(ctx))
-        _WORLD_CACHE["worlds"] = []
-        return
-    budget = tl(ctx) * 0.55
-    deadline = time.time() + budget
     wr = ctx.subrng("worlds")
     nw = ctx.scale(12, 200)
     worlds = [gen_world(random.Random(wr.random()), ctx.tier, i) for i in range(nw)]
-    args = [(w, ctx.repo, os.path.join(ctx.tmp, "w%d" % i), deadline, "%d-%d" % (ctx.seed, i)) for i, w in enumerate(worlds)]
-    workers = min(len(args), max(2, (os.cpu_count() or 4) // 2))
-    try:
-        results = ctx.parallel(run_world, args, workers=workers)
-    except Exception as e:  # noqa
-        ctx.skip("worlds: %s" % e)
-        results = []
-    _WORLD_CACHE["worlds"] = list(zip(worlds, results))
+    results = [None] * nw
+    # one complete world of each directed kind is guaranteed, whatever the load of the machine: these get a deadline
+    # that only the per-invocation time-outs bound; the random worlds share what is left of the budget
+    hard = time.time() + max(tl(ctx) * 0.55, 900.0)
+
+    def batch(idx, deadline):
+        args = [(worlds[i], ctx.repo, os.path.join(ctx.tmp, "w%d" % i), deadline, "%d-%d" % (ctx.seed, i)) for i in idx]
+        workers = min(len(args), max(2, (os.cpu_count() or 4) // 2))
+        try:
+            out = ctx.parallel(run_world, args, workers=workers)
+        except Exception as e:  # noqa
+            ctx.skip("worlds: %s" % e)
+            return
+        for i, res in zip(idx, out):
+            results[i] = res
+    batch(list(range(min(N_DIRECTED, nw))), hard)
+    rest = list(range(N_DIRECTED, nw))
+    if rest:
+        if tl(ctx) < 40:
+            ctx.skip("random worlds: no time left (%.0f s)" % tl(ctx))
+        else:
+            batch(rest, time.time() + tl(ctx) * 0.55)
+    pairs = [(w, res) for w, res in zip(worlds, results) if res is not None]
+    _WORLD_CACHE["worlds"] = pairs
     done = 0
-    for w, res in zip(worlds, results):
+    for w, res in pairs:
         if res["skipped"]:
             ctx.skip("world (%s): %s" % (w["kind"], res["skipped"][:120]))
-        if res["n"]:
+        else:
             done += 1
+            ctx.count("world-complete", w["kind"])
         for _ in range(res["n"]):
             ctx.case(key=None)
         ctx.case(key={"steps": w["steps"], "states": [_P().state_key(s) for s in w["states"]]},
